@@ -135,7 +135,7 @@ func init() {
 		ID: "C16", NeedsServer: true,
 		Explanation: "decides that every handler goroutine sends exactly one reply on every exit (panic path included) with the fields the exit code reads initialised first, that storage is mutated only by the final commit step, that an error can never be reported as success, that every RPC returns a response or a non-nil error, that the client turns every error response into a handled error, that lock failures are answered, and that a plain push-pull for an unknown datatype is refused (known finding F19: it is handled by way of a nil dereference). NOT decided: promptness (timing); panics on nil sub-messages of well-formed requests (they become error replies through the recover branch).",
 		Assumptions: []string{"gRPC delivers the returned error to the client"},
-		Rules:       []ruleFn{ruleR16_1, ruleR16_2, ruleR16_3, ruleR16_4, ruleR08_3, ruleR16_6, ruleR16_7, ruleR12_1, ruleR12_2, ruleR08_2},
+		Rules:       []ruleFn{ruleR16_1, ruleR16_2, ruleR16_3, ruleR16_4, ruleR08_3, ruleR16_6, ruleR16_7, ruleR12_1, ruleR12_2, ruleR08_2, ruleR20_3},
 	})
 	register(&propertySpec{
 		ID: "C17", NeedsServer: true,
@@ -160,5 +160,14 @@ func init() {
 		Explanation: "decides that a multi-operation patch is one transaction whose first failure aborts it, that patch paths are RFC 6901-decoded in the right order before use, that patchEach supports exactly the operation kinds the differ emits, that the REST client is volatile and never registered, and whether the REST endpoint inspects the push result (known finding F17: it discards it); plus the transaction gating rules. NOT decided: that the edit script reproduces the target (value-level).",
 		Assumptions: []string{"jsondiff.CompareJSON produces a correct RFC 6902 patch"},
 		Rules:       []ruleFn{ruleR19_1, ruleR19_2, ruleR19_3, ruleR19_4, ruleR19_5, ruleR09_1, ruleR09_2},
+	})
+}
+
+func init() {
+	register(&propertySpec{
+		ID: "C20",
+		Explanation: "decides the lock discipline of a client datatype and its manager from the shape of the code: which accesses of the mutex-protected fields lie outside the BeginTransaction..EndTransaction brackets (known findings F18: BeginTransaction's pre-lock test, unlock's late store, the whole sync path, the manager's map), that every exchange holds the manager's semaphore (known finding: the notification path does not), and that semaphore and mutex are released on every exit. NOT decided: absence of lost updates and deadlocks over real schedules (no pointer analysis; the lockset is function-level).",
+		Assumptions: []string{"a function is treated as running under the lock only if every call site in the CHA graph is inside the brackets"},
+		Rules:       []ruleFn{ruleR20_1, ruleR20_2, ruleR20_3},
 	})
 }
